@@ -4,5 +4,5 @@ CONSTANTS
   K = 2
   B = 1
   MaxWords = 4
-INVARIANTS SelectOK SelectR64OK InverseLaw IndexShape
+INVARIANTS SelectOK SelectR64OK InverseLaw IndexShape DenseFormOK
 CHECK_DEADLOCK FALSE
